@@ -1186,6 +1186,7 @@ impl Model {
             kind = TP_PUSH_WRAPPER;
         }
         p.r.kind = kind;
+        p.r.sink = kind; // carried into a violation's record: which probe it was
         p.r.via = VIA_ERASED;
         p.r.form = st.form % 2;
         p.nontrivial = true;
